@@ -170,6 +170,14 @@ func genReduce(r *gen.R, op string, validOnly bool) (mon.OpReq, Expect, bool) {
 			repeated = true
 		}
 		req.Attrs = append(req.Attrs, mon.AttrInts("axes", axes))
+	} else if r.Chance(0.3) {
+		// an axes attribute that is present and lists no axis (what decoding a model whose
+		// exporter wrote axes=[] yields): none are given, all are reduced
+		empty := mon.AttrInts("axes", nil)
+		if r.Bool() {
+			empty.Ints = nil
+		}
+		req.Attrs = append(req.Attrs, empty)
 	}
 	keep := true
 	switch r.Intn(3) {
